@@ -31,6 +31,8 @@ THEOREM_NOTES = {
     "C17_in_out": "stated on product objects in arbitrary states (after the fix of F-C17-1 the flag is recomputed per path)",
     "C17_product_rep_agree": "about the repaired tree (fix 'path-dependent payoffs see spot values in the log representation too', F-C17-7); "
                              "Spot underlying, every modelled payoff incl. barriers",
+    "C17_succeeds": "excludes the error value UErr under the hypotheses of the identities, so that C17_in_out / C17_product_rep_agree / C17_history_free "
+                    "are not read in the 0 + 0 == 0 branch; for arrays of different lengths Python raises IndexError while the list model is total",
     "C17_history_free": "a statement about the HAND-WRITTEN state machine of Model/Payoff.v (two booleans: barrier flag, representation binding): "
                         "process/update/underlying_value are not generated from the source, so purity of the code itself is established by the "
                         "operation-sequence correspondence and the fresh-object oracle (sampled), not by proof; classes outside the model "
@@ -572,6 +574,117 @@ def default_history_cases(res, rng, tier):
     return cases
 
 
+def control_variates_oracle(res, rng, tier):
+    """ControlVariates.initialisation / process / process_mlmc: the value of every control product on a path must be the value a FRESH
+    product gives on that path (pure function of the path), over sequences of >= 3 paths on ONE ControlVariates object, with barrier
+    controls (knocked and un-knocked paths), in both representations; and the multilevel engine must hand the representation of the
+    process to the control products as the standard engine does."""
+    import numpy as np
+    from rpylib.product.product import ControlVariates
+    from rpylib.product import underlying as U
+    for it in range(60 if tier == "quick" else 600):
+        lg = it % 2 == 1
+        specs = [{"und": ("spot",), "pay": ("barrier", rng.choice([1, -1]), dy(rng, 70, 150, 8), rng.random() < 0.5, rng.random() < 0.5, dy(rng, 60, 160, 8) + 1 / 16),
+                  "notional": dy(rng, 0.25, 8, 4)},
+                 {"und": ("spot",), "pay": gen_payoff(rng), "notional": 1.0}]
+        prods = [make_product(sp) for sp in specs]
+        for pr in prods:
+            pr.update(rep_enum(lg))
+        cv = ControlVariates(products=prods, prices=[0.0] * len(prods))
+        cv.initialisation(U.Spot)
+        history = []
+        for step in range(rng.randrange(3, 6)):
+            n = rng.randrange(2, 9)
+            times = gen_times(rng, n)
+            mlmc = step % 2 == 1
+            paths = [gen_spot_path(rng, n, False) for _ in range(2 if mlmc else 1)]
+            arrs = [np.log(np.array(p)) if lg else np.array(p) for p in paths]
+            fresh = []
+            for pth, arr in zip(paths, arrs):
+                row = []
+                for sp in specs:
+                    f = make_product(sp)
+                    f.update(rep_enum(lg))
+                    row.append(float(f(f.underlying_value(np.array(times), arr, arr))))
+                fresh.append(row)
+            t = np.array(times)
+            try:
+                if mlmc:
+                    spot = [float(U.Spot().value(t, a, a)) if not lg else float(np.exp(a[-1])) for a in arrs]
+                    out = np.asarray(cv.process_mlmc(t, arrs[0], arrs[1], arrs[0], arrs[1], spot[0], spot[1]), dtype=float)
+                    # shape (number of controls, 1, 2): last axis = fine / coarse
+                    got = [[float(out[k, 0, 0]) for k in range(len(specs))], [float(out[k, 0, 1]) for k in range(len(specs))]]
+                else:
+                    spot = float(np.exp(arrs[0][-1])) if lg else float(arrs[0][-1])
+                    out = np.asarray(cv.process(t, arrs[0], arrs[0], spot), dtype=float)
+                    got = [[float(v) for v in out.ravel()]]
+            except Exception as e:  # noqa
+                res.violation(f"ControlVariates.{'process_mlmc' if mlmc else 'process'} raises {type(e).__name__}",
+                              {"kind": "control-variates", "products": specs, "log": lg, "error": f"{type(e).__name__}: {e}"})
+                break
+            history.append({"call": "process_mlmc" if mlmc else "process", "times": times, "spot_paths": paths, "got": got, "fresh": fresh})
+            res.count(("cv", json.dumps(specs), lg, step, tuple(times), repr(paths)), nontrivial=step >= 1, kind=f"ControlVariates.{'process_mlmc' if mlmc else 'process'}")
+            if any(abs(g - f) > 1e-9 * max(1.0, abs(f)) for gr, fr in zip(got, fresh) for g, f in zip(gr, fr)):
+                res.violation("a control variate's value on a path is not the value of a fresh product on that path (payoff.process not called / stale knock flag)",
+                              {"kind": "control-variates", "finding": "F-C17-9", "products": specs, "log": lg, "calls": history})
+                break
+    # same underlying CLASS, different parameters: the control reuses the main product's underlying value (recorded: F-C17-10)
+    t, jumps = np.array([0.0, 1.0, 2.0, 3.0]), np.array([0.0, -0.5, -2.0, -4.0])
+    ctrl = make_product({"und": ("dt", -0.25), "pay": ("forward", 0.0), "notional": 1.0})
+    ctrl.update(rep_enum(True))
+    main_u = U.DefaultTime(-1.0)
+    main_u.update(rep_enum(True))
+    cv = ControlVariates(products=[ctrl], prices=[0.0])
+    cv.initialisation(U.DefaultTime)
+    res.count(("cv-imply",), kind="ControlVariates same underlying class")
+    main_value = float(main_u.value(t, jumps, jumps))
+    got = float(np.asarray(cv.process(t, jumps, jumps, main_value)).ravel()[0])
+    alone = float(ctrl(ctrl.underlying_value(t, jumps, jumps)))
+    if got != alone:
+        res.violation("a control variate whose underlying has the class of the main product's underlying takes the MAIN product's underlying value, whatever its own parameters",
+                      {"kind": "cv-imply", "finding": "F-C17-10", "control_level": -0.25, "main_level": -1.0, "times": t.tolist(), "log_jumps": jumps.tolist(),
+                       "inside_control_variates": got, "alone": alone, "main_underlying": main_value})
+    # multilevel engine: update(representation) must reach the control products (the standard engine does it)
+    from rpylib.montecarlo.multilevel.engine import Engine
+    from rpylib.process.process import ProcessRepresentation as PR
+
+    class _Fine:
+        process_representation = PR.LOG
+
+        def deterministic_path(self, times):
+            return 0.0
+
+    class _Model:
+        def dimension_model(self):
+            return 1
+
+    class _Coupling:
+        model, fine_process = _Model(), _Fine()
+
+        def initialisation(self, product):
+            raise RuntimeError("stop here: only the update calls are observed")
+
+    class _Config:
+        nb_of_processes = 2
+
+        def __init__(self, cvs):
+            self.control_variates = cvs
+
+    ctrl = make_product({"und": ("spot",), "pay": ("forward", 0.0), "notional": 1.0})
+    main = make_product({"und": ("spot",), "pay": ("forward", 0.0), "notional": 1.0})
+    eng = Engine(_Config(ControlVariates(products=[ctrl], prices=[0.0])), _Coupling())
+    try:
+        eng.initialisation(main)
+    except RuntimeError:
+        pass
+    res.count(("cv-mlmc-update",), kind="multilevel engine: representation of the control variates")
+    lp = np.log(np.array([100.0, 120.0]))
+    um, uc = float(main.underlying_value(np.array([0.0, 1.0]), lp, lp)), float(ctrl.underlying_value(np.array([0.0, 1.0]), lp, lp))
+    if abs(um - 120.0) > 1e-9 or abs(uc - 120.0) > 1e-9:
+        res.violation("multilevel Engine.initialisation does not hand the process representation to the control-variate products",
+                      {"kind": "cv-mlmc-update", "finding": "F-C17-11", "main_underlying_on_log_path": um, "control_underlying_on_log_path": uc, "spot": 120.0})
+
+
 def representation_oracle(res, rng, tier):
     """the SAME spot path under the identity and the LOG representation on fresh products: every payoff class, in
     particular barriers (whose level is in spot units), must give the same value"""
@@ -580,7 +693,7 @@ def representation_oracle(res, rng, tier):
         n = rng.randrange(1, 10)
         times, path = gen_times(rng, n), gen_spot_path(rng, n, False)
         pay = gen_payoff(rng) if i % 2 else ("barrier", rng.choice([1, -1]), dy(rng, 70, 150, 8), rng.random() < 0.5, rng.random() < 0.5,
-                                            dy(rng, 60, 160, 8) + 1 / 16)      # barrier never equal to a path value (exp(log x) rounding)
+                                            rng.choice(path) if i % 4 == 0 else dy(rng, 60, 160, 8) + 1 / 16)    # also barriers AT a path value
         pspec = {"und": ("spot",), "pay": pay, "notional": dy(rng, 0.25, 8, 4)}
         vals = {}
         for lg in (False, True):
@@ -591,9 +704,132 @@ def representation_oracle(res, rng, tier):
             vals[lg] = (u, float(prod(u)))
         res.count(("rep", json.dumps(pspec), tuple(path)), nontrivial=pay[0] == "barrier" and min(path) < pay[5] < max(path), kind=f"same spot path, both representations ({pay[0]})")
         if abs(vals[True][1] - vals[False][1]) > 1e-9 * max(1.0, abs(vals[False][1])):
-            res.violation("the value of a product on the same spot path depends on the process representation",
-                          {"kind": "rep-product", "finding": "F-C17-7", "product": pspec, "times": times, "spot_path": path,
-                           "identity": list(vals[False]), "log": list(vals[True])})
+            touch = pay[0] == "barrier" and pay[5] in path
+            if touch:
+                # the path touches the barrier exactly: strict inequality in spot units, but exp(log b) != b in floats (recorded: F-C17-13)
+                res.violation("barrier touched exactly: the knock test '>' / '<' is decided by the rounding of exp(log(barrier)) in the LOG representation",
+                              {"kind": "rep-touch", "finding": "F-C17-13", "product": pspec, "times": times, "spot_path": path,
+                               "identity": list(vals[False]), "log": list(vals[True]),
+                               "exp_log_of_barrier": float(np.exp(np.log(np.float64(pay[5]))))})
+            else:
+                res.violation("the value of a product on the same spot path depends on the process representation",
+                              {"kind": "rep-product", "finding": "F-C17-7", "product": pspec, "times": times, "spot_path": path,
+                               "identity": list(vals[False]), "log": list(vals[True])})
+
+
+def shapes_oracle(res, rng, tier):
+    """shapes the property quantifies over beyond flat scalar paths: (1, n) paths, vector underlyings, and the product classes
+    that have no Coq model, each through the fresh-object (history-freeness) oracle"""
+    import numpy as np
+    from rpylib.product import payoff as P
+    from rpylib.product import underlying as U
+    from rpylib.product.product import Product
+    # (1, n) paths (what MarkovChainSDE returns) must give what the flat path gives
+    for i in range(40 if tier == "quick" else 400):
+        n = rng.randrange(2, 9)
+        times, path = gen_times(rng, n), gen_spot_path(rng, n, False)
+        pspec = {"und": ("spot",), "pay": gen_payoff(rng) if i % 2 else ("barrier", 1, dy(rng, 70, 150, 8), rng.random() < 0.5, rng.random() < 0.5, rng.choice(path)),
+                 "notional": 1.0}
+        res.count(("shape-1n", json.dumps(pspec), tuple(path)), kind="(1, n) path")
+        flat = make_product(pspec)
+        vf = float(flat(flat.underlying_value(np.array(times), np.array(path), np.array(path))))
+        try:
+            two = make_product(pspec)
+            a2 = np.array([path])
+            v2 = float(np.asarray(two(two.underlying_value(np.array(times), a2, a2))).ravel()[0])
+        except Exception as e:  # noqa
+            res.violation(f"a product cannot be valued on a path of shape (1, n): {type(e).__name__}",
+                          {"kind": "shape-1n", "finding": "F-C17-14", "product": pspec, "times": times, "path": path, "error": f"{type(e).__name__}: {e}"})
+            continue
+        if v2 != vf:
+            res.violation("a (1, n) path gives a different value than the same flat path", {"kind": "shape-1n", "product": pspec, "path": path, "flat": vf, "row": v2})
+    # vector underlyings: every payoff must act componentwise (or refuse); recorded: F-C17-12
+    vec = np.array([95.0, 120.0, 200.0])
+    for name, pay in (("Forward", P.Forward(100.0)), ("Vanilla", P.Vanilla(100.0, P.PayoffType.CALL)), ("CallSpread", P.CallSpread(90.0, 110.0)),
+                      ("Butterfly", P.Butterfly(90.0, 100.0, 110.0)), ("Digital", P.Digital(100.0, P.PayoffType.CALL))):
+        want = [float(pay.evaluate(float(x))) for x in vec]
+        res.count(("vector", name), kind="vector underlying")
+        try:
+            got = np.asarray(pay.evaluate(vec), dtype=float).ravel().tolist()
+            err = None
+        except Exception as e:  # noqa
+            got, err = None, f"{type(e).__name__}: {e}"
+        if got != want:
+            res.violation("a payoff evaluated on a vector underlying is not its componentwise value (scalar-only formula)",
+                          {"kind": "vector-underlying", "finding": "F-C17-12", "payoff": name, "underlying": vec.tolist(), "got": got, "error": err, "componentwise": want})
+    # NthSpot shortcut used by ControlVariates
+    res.count(("nthspot-imply",), kind="NthSpot.imply_from_payoff_underlying")
+    try:
+        f = U.NthSpot(2).imply_from_payoff_underlying(U.Spot)
+        v = float(f(np.array([0.0, 1.0]), np.array([[1.0, 2.0], [3.0, 4.0]]), np.array([[0.0, 0.0], [0.0, 0.0]]), np.array([2.0, 4.0])))
+        if v != 4.0:
+            res.violation("NthSpot.imply_from_payoff_underlying does not return the n-th spot", {"kind": "nthspot-imply", "got": v})
+    except Exception as e:  # noqa
+        res.violation("NthSpot.imply_from_payoff_underlying(Spot) cannot be called the way ControlVariates calls it",
+                      {"kind": "nthspot-imply", "finding": "F-C17-15", "error": f"{type(e).__name__}: {e}"})
+    # classes without a Coq model: value on a reused object == value on a fresh object, over 3 paths, both representations
+    spots = [100.0, 50.0, 80.0]
+    df = lambda t: float(np.exp(-0.03 * t))      # noqa
+    und_factories = {
+        "Mean": lambda: U.Mean(), "Performances": lambda: U.Performances(spots), "MaximumOfPerformances": lambda: U.MaximumOfPerformances(spots),
+        "NthSpot": lambda: U.NthSpot(2), "Indicators": lambda: U.Indicators([90.0, 40.0, 70.0]), "Indicators(<=0)": lambda: U.Indicators([-1.0, 0.0, 70.0]),
+        "LogSpot": lambda: U.LogSpot(), "Libors": lambda: U.Libors(), "Spot(d,n)": lambda: U.Spot(),
+    }
+    for name, fac in und_factories.items():
+        for lg in (False, True):
+            obj = fac()
+            obj.update(rep_enum(lg))
+            for step in range(3):
+                n = rng.randrange(2, 7)
+                times = gen_times(rng, n)
+                path = np.array([[dy(rng, 30, 160, 8) for _ in range(n)] for _ in spots])
+                arr = np.log(path) if lg else path
+                res.count(("unmodelled-und", name, lg, step, repr(path.tolist())), nontrivial=step >= 1, kind=f"unmodelled underlying {name}")
+                try:
+                    got = np.asarray(obj.value(np.array(times), arr.copy(), arr.copy()), dtype=float).ravel().tolist()
+                    fresh = fac()
+                    fresh.update(rep_enum(lg))
+                    want = np.asarray(fresh.value(np.array(times), arr.copy(), arr.copy()), dtype=float).ravel().tolist()
+                    ident = np.asarray(fac().value(np.array(times), path.copy(), path.copy()), dtype=float).ravel().tolist()
+                except Exception as e:  # noqa
+                    res.violation(f"underlying {name} raises {type(e).__name__}", {"kind": "unmodelled-und", "cls": name, "log": lg, "error": f"{type(e).__name__}: {e}"})
+                    break
+                if got != want:
+                    res.violation("an underlying object returns a value that depends on the paths valued earlier", {"kind": "unmodelled-und", "cls": name, "log": lg, "got": got, "fresh": want})
+                    break
+                if any(abs(a - b) > 1e-9 * max(1.0, abs(b)) for a, b in zip(want, ident)):
+                    rp = {"kind": "unmodelled-und", "cls": name, "spot_path": path.tolist(), "log": want, "identity": ident}
+                    if name.startswith("Indicators"):
+                        rp["finding"] = "F-C17-16"
+                    res.violation("identity and LOG representation give different underlying values for the same spot path", rp)
+                    break
+    rates, deltas = np.array([0.02, 0.03, 0.025]), np.array([0.5, 0.5, 0.5])
+    pay_factories = {
+        "Rainbow": (lambda: P.Rainbow([0.5, 0.3, 0.2], 1.0, P.PayoffType.CALL), lambda: np.array([dy(rng, 0.5, 2, 16) for _ in range(3)])),
+        "CDS": (lambda: P.CDS(0.4, 0.01, 5.0, df), lambda: rng.choice([float("inf"), dy(rng, 0.25, 8, 8)])),
+        "Bond": (lambda: P.Bond(rates, deltas), lambda: np.array([dy(rng, 0, 0.0625, 256) for _ in range(3)])),
+        "Cap": (lambda: P.Cap(rates, deltas, 0.02), lambda: np.array([dy(rng, 0, 0.0625, 256) for _ in range(3)])),
+        "Ratchet": (lambda: P.Ratchet(deltas, 1.0, 0.0, 0.01, 0.001, 0.02), lambda: np.array([dy(rng, 0, 0.0625, 256) for _ in range(3)])),
+        "Swaption": (lambda: P.Swaption(rates, deltas, 0.02), lambda: np.array([dy(rng, 0, 0.0625, 256) for _ in range(3)])),
+        "FixedCoupon": (lambda: P.FixedCoupon(0.05), lambda: dy(rng, 50, 150, 8)),
+    }
+    for name, (fac, arg) in pay_factories.items():
+        obj = fac()
+        for step in range(3):
+            u = arg()
+            res.count(("unmodelled-pay", name, step, repr(np.asarray(u).tolist())), nontrivial=step >= 1, kind=f"unmodelled payoff {name}")
+            try:
+                obj.process(None, np.array([1.0, 2.0]))
+                got = np.asarray(obj.evaluate(u), dtype=float).ravel().tolist()
+                f2 = fac()
+                f2.process(None, np.array([1.0, 2.0]))
+                want = np.asarray(f2.evaluate(u), dtype=float).ravel().tolist()
+            except Exception as e:  # noqa
+                res.violation(f"payoff {name} raises {type(e).__name__}", {"kind": "unmodelled-pay", "cls": name, "error": f"{type(e).__name__}: {e}"})
+                break
+            if got != want and not (got != got and want != want):
+                res.violation("a payoff object returns a value that depends on the evaluations made earlier", {"kind": "unmodelled-pay", "cls": name, "got": got, "fresh": want})
+                break
 
 
 def lookback_oracle(res):
@@ -628,6 +864,17 @@ def matches_known(v, known):
             return False
         call = lambda k: max(u - k, Fraction(0))   # noqa
         return r.get("kind") == "butterfly" and k1 < k2 < k3 and k1 + k3 > 2 * k2 and got < 0 and got == call(k1) - 2 * call(k2) + call(k3)
+    if kid == "F-C17-12":
+        return r.get("kind") == "vector-underlying" and r.get("payoff") in ("CallSpread", "Butterfly", "Digital") and len(r.get("underlying", [])) >= 2 \
+            and (r.get("error") is not None or r.get("payoff") == "Butterfly")
+    if kid == "F-C17-13":
+        try:
+            b = r["product"]["pay"][5]
+            return r.get("kind") == "rep-touch" and r["product"]["pay"][0] == "barrier" and b in r["spot_path"] and r.get("exp_log_of_barrier") != b
+        except Exception:  # noqa
+            return False
+    if kid == "F-C17-10":
+        return r.get("kind") == "cv-imply" and r.get("inside_control_variates") == r.get("main_underlying") != r.get("alone")
     if kid == "F-C17-8":
         return r.get("kind") == "lookback" and r.get("error", "").startswith("ValueError: it depends on the process representation")
     return False
@@ -694,6 +941,8 @@ def correspond(res):
     nth_cases = nth_default_cases(res, rng, tier) + default_history_cases(res, rng, tier)
     mlmc_oracle(res, rng, tier)
     representation_oracle(res, rng, tier)
+    control_variates_oracle(res, rng, tier)
+    shapes_oracle(res, rng, tier)
     lookback_oracle(res)
 
     seq_cases, seq_meta = [], []
@@ -746,6 +995,9 @@ def correspond(res):
 
     for spec, ev, u, e in payoff_cases:
         res.count(("payoff", spec, ev, u), nontrivial=True, kind=f"evaluate {spec[0]}")
+    for nm, lst_ in (("payoff", payoff_cases), ("nth", nth_cases), ("seq", seq_cases)):
+        if not lst_:
+            res.broke(f"correspondence {nm}", "no case could be produced for this group (an empty group would otherwise be dropped silently)")
     pay_lits = [f"({payoff_lit(s)}, {blit(ev)}, {qlit(u)}, {qlit(e)})" for s, ev, u, e in payoff_cases]
     groups = [(f"payoff{k // 3000}", "payoff * bool * Q * Q", "payoff_check", pay_lits[k:k + 3000]) for k in range(0, len(pay_lits), 3000)]
     groups += [(f"nth{k // 1000}", "nat * list Q * list Q * list (list Q) * bool * list (Q * Q) * uval", "nth_check", nth_cases[k:k + 1000])
